@@ -1,5 +1,6 @@
 """C18 — expression identity matches the call it denotes.
 Model: lean/RedunModel/Model/ExprHash.lean; theorems: lean/RedunModel/Props/C18.lean."""
+import collections
 import copy
 import pickle
 
@@ -28,7 +29,9 @@ TRUSTED = [
     "round trip (the real pickle round trip is what the harness runs)",
 ]
 ASSUMPTIONS = [
-    "arguments are plain picklable values or expressions (no containers holding expressions)",
+    "arguments are plain picklable values, expressions, or containers (list, tuple, namedtuple, dict values, nested; sets of plain "
+    "values) of them; a container is one value to the model: its hash is TypeRegistry.get_hash(container), an injective leaf that "
+    "the harness labels type-aware (list != tuple != namedtuple, nesting kept)",
     "`same call` is one level deep with argument identity = equality of argument hashes, to which the theorem applies again",
     "the statement is one-directional (same hash only if same call); keyword order, export-set order and `length` are "
     "shown not to matter (hash_ignores_kw_order_export_order_length) but are not demanded by the oracle",
@@ -90,6 +93,56 @@ def optlabel(v):
     return v
 
 
+# containers as arguments: ("cont", kind, items); for kind "dict" the items are (key, node) pairs.  To the model a container is a
+# plain value: its hash is TypeRegistry.get_hash(container) (the pickle of the container, type included), i.e. an injective leaf;
+# the harness gives every distinct container (type-aware, full structure of the items) its own value label.
+NT1 = collections.namedtuple("NT1", ["p"])
+NT2 = collections.namedtuple("NT2", ["p", "q"])
+NT3 = collections.namedtuple("NT3", ["p", "q", "r"])
+NT4 = collections.namedtuple("NT4", ["p", "q", "r", "s"])
+NTS = {1: NT1, 2: NT2, 3: NT3, 4: NT4}
+SEQ_KINDS = ["list", "tuple", "namedtuple"]
+CONT_LABELS = {}
+
+
+def cont_label(n):
+    key = norm(n)
+    if key not in CONT_LABELS:
+        CONT_LABELS[key] = 5000 + len(CONT_LABELS)
+    return CONT_LABELS[key]
+
+
+def gen_item(rng):
+    """a small lazy expression (no export options: a set of >= 2 strings pickles in PYTHONHASHSEED order)"""
+    k = rng.random()
+    if k < 0.4:
+        return ("task", rng.choice(["g", "h"]), (("lit", rng.randrange(1, 9)),), (), (), (), None)
+    if k < 0.6:
+        return ("value", rng.randrange(1, 9))
+    if k < 0.8:
+        return ("simple", "add", (("task", "g", (), (), (), (), None), ("lit", rng.randrange(1, 9))), ())
+    return ("sched", "redun.cond", (("lit", 1), ("lit", 2), ("lit", 3)), (), (), (), None)
+
+
+def gen_cont(rng, depth=1):
+    kind = rng.choice(["list", "list", "tuple", "tuple", "namedtuple", "dict", "set"])
+    if kind == "set":
+        return ("cont", rng.choice(["set", "frozenset"]), tuple(("lit", x) for x in sorted(rng.sample(range(1, 9), rng.choice([1, 2])))))
+    n = rng.choice([1, 2, 2, 3])
+    items = []
+    for _ in range(n):
+        r = rng.random()
+        if depth > 0 and r < 0.2:
+            items.append(gen_cont(rng, depth - 1))
+        elif r < 0.3:
+            items.append(("lit", rng.randrange(1, 9)))
+        else:
+            items.append(gen_item(rng))
+    if kind == "dict":
+        return ("cont", "dict", tuple(zip(rng.sample(["k1", "k2", "k3"], n), items)))
+    return ("cont", kind, tuple(items))
+
+
 # ------------------------------------------------------------------ generation (plain tuples, hashable)
 def gen_node(rng, depth, top=False):
     k = rng.random()
@@ -97,8 +150,9 @@ def gen_node(rng, depth, top=False):
         return ("lit", rng.choice(LOOKALIKE) if rng.random() < 0.2 else rng.randrange(1, 40))
     if k < 0.45 and not top or (top and k < 0.08):
         return ("value", rng.choice(LOOKALIKE) if rng.random() < 0.2 else rng.randrange(1, 40))
-    args = tuple(gen_node(rng, depth - 1) for _ in range(rng.choice([0, 1, 1, 2, 3])))
-    kw = tuple((key, gen_node(rng, depth - 1)) for key in rng.sample(["a", "b", "k", "zz"], rng.choice([0, 0, 1, 2])))
+    arg = lambda: gen_cont(rng) if rng.random() < 0.12 else gen_node(rng, depth - 1)
+    args = tuple(arg() for _ in range(rng.choice([0, 1, 1, 2, 3])))
+    kw = tuple((key, arg()) for key in rng.sample(["a", "b", "k", "zz"], rng.choice([0, 0, 1, 2])))
     if k < 0.62:
         return ("simple", rng.choice(FUNCS), args, kw)
     opts = tuple((key, rng.choice([100, 100, 101, 102, 103, 104, 105] + LOOKALIKE) if rng.random() < 0.4 else rng.randrange(1, 9))
@@ -109,6 +163,8 @@ def gen_node(rng, depth, top=False):
 
 
 def sx_node(n):
+    if n[0] == "cont":
+        return "(lit i%d)" % cont_label(n)
     if n[0] in ("lit", "value"):
         return "(%s i%d)" % n
     if n[0] == "simple":
@@ -149,6 +205,18 @@ class Real:
             self.log.leaf_value(self.reg.get_hash(v), n[1])
             self.leaf(self.reg.get_hash(v), "v%d" % n[1])
             return E.ValueExpression(v)
+        if n[0] == "cont":
+            _, ckind, items = n
+            if ckind == "dict":
+                obj = {k: self.build(v) for k, v in items}
+            else:
+                vals = [self.build(i) for i in items]
+                obj = {"list": list, "tuple": tuple, "set": set, "frozenset": frozenset}[ckind](vals) if ckind != "namedtuple" \
+                    else NTS[len(vals)](*vals)
+            dg = self.reg.get_hash(obj)
+            self.log.leaf_value(dg, cont_label(n))
+            self.leaf(dg, "v%d" % cont_label(n))
+            return obj
         if n[0] == "simple":
             _, f, args, kw = n
             return E.SimpleExpression(f, tuple(self.build(a) for a in args), {k: self.build(v) for k, v in kw})
@@ -172,6 +240,16 @@ class Real:
             return ("simple", x.func_name, tuple(self.unbuild(a) for a in x.args), tuple((k, self.unbuild(v)) for k, v in x.kwargs.items()))
         if isinstance(x, E.ValueExpression):
             return ("value", optlabel(x.value))
+        if isinstance(x, tuple) and hasattr(x, "_fields"):
+            return ("cont", "namedtuple", tuple(self.unbuild(i) for i in x))
+        for ckind, cls in (("list", list), ("tuple", tuple)):
+            if type(x) is cls:
+                return ("cont", ckind, tuple(self.unbuild(i) for i in x))
+        for ckind, cls in (("set", set), ("frozenset", frozenset)):
+            if type(x) is cls:
+                return ("cont", ckind, tuple(self.unbuild(i) for i in sorted(x)))
+        if type(x) is dict and x:
+            return ("cont", "dict", tuple((k, self.unbuild(v)) for k, v in x.items()))
         return ("lit", optlabel(x))
 
 
@@ -179,6 +257,8 @@ def norm(n):
     """node tuple with export options sorted (for comparing with unbuild)"""
     if n[0] in ("lit", "value"):
         return n
+    if n[0] == "cont":
+        return ("cont", n[1], tuple((k, norm(v)) for k, v in n[2]) if n[1] == "dict" else tuple(map(norm, n[2])))
     if n[0] == "simple":
         return ("simple", n[1], tuple(map(norm, n[2])), tuple((k, norm(v)) for k, v in n[3]))
     return (n[0], n[1], tuple(map(norm, n[2])), tuple((k, norm(v)) for k, v in n[3]), n[4], tuple(sorted(n[5])), n[6])
@@ -188,6 +268,8 @@ def ident(n):
     """what the hash may legitimately ignore removed: keyword order, export-set order, length"""
     if n[0] in ("lit", "value"):
         return n
+    if n[0] == "cont":
+        return norm(n)          # a container is one value: its pickle keeps every detail of its items
     if n[0] == "simple":
         return ("simple", n[1], tuple(map(ident, n[2])), tuple(sorted((k, ident(v)) for k, v in n[3])))
     return (n[0], n[1], tuple(map(ident, n[2])), tuple(sorted((k, ident(v)) for k, v in n[3])), n[4], tuple(sorted(n[5])))
@@ -198,8 +280,37 @@ def lookalike_of(rng, label):
     return rng.choice([x for x in fam if x != label]) if fam else None
 
 
+def cont_variants(rng, c):
+    """same items, different container type / nesting: (what, cont2)"""
+    _, ckind, items = c
+    if ckind in SEQ_KINDS:
+        yield "argument-container-type", ("cont", rng.choice([k for k in SEQ_KINDS if k != ckind]), items)
+        yield "argument-container-nesting", ("cont", ckind, (("cont", ckind, items),))
+        if len(items) >= 2:
+            yield "argument-container-nesting", ("cont", ckind, (("cont", ckind, items[:1]),) + items[1:])
+        if len(items) == 1:
+            yield "argument-container-unwrapped", items[0]
+        yield "argument-container-type", ("cont", "dict", tuple(("k%d" % i, v) for i, v in enumerate(items)))
+    elif ckind == "dict":
+        yield "argument-container-type", ("cont", "list", tuple(v for _, v in items))
+        yield "argument-container-key", ("cont", "dict", ((items[0][0] + "_r", items[0][1]),) + items[1:])
+    else:
+        yield "argument-container-type", ("cont", "frozenset" if ckind == "set" else "set", items)
+        yield "argument-container-type", ("cont", "list", items)
+
+
 def arg_variants(rng, args, kw):
     """changes of the argument binding only: (what, args2, kw2); each denotes a different call"""
+    for i, a in enumerate(args):
+        if a[0] == "cont":
+            for what, c2 in cont_variants(rng, a):
+                yield what, args[:i] + (c2,) + args[i + 1:], kw
+            break
+    for i, (k, a) in enumerate(kw):
+        if a[0] == "cont":
+            for what, c2 in cont_variants(rng, a):
+                yield "keyword-" + what, args, kw[:i] + ((k, c2),) + kw[i + 1:]
+            break
     for i, a in enumerate(args):
         if a[0] in ("lit", "value") and family_of(a[1]):
             yield "argument-lookalike", args[:i] + ((a[0], lookalike_of(rng, a[1])),) + args[i + 1:], kw
@@ -297,7 +408,7 @@ def run(ctx):
     for lab in sorted(FALSY):
         corpus.append(("task", "f", (("lit", 1),), (), (("executor", lab),), (), None))
         corpus.append(("sched", "redun.catch", (("lit", 1),), (), (("cache_scope", lab), ("memory", 2)), (), None))
-    nodes = corpus + [gen_node(rng, rng.choice([1, 2, 2, 3]), top=True) for _ in range(ctx.n(500, 25000))]
+    nodes = corpus + [gen_node(rng, rng.choice([1, 2, 2, 3]), top=True) for _ in range(ctx.n(400, 25000))]
     reqs, plan = [], []
     with log:
         for n in nodes:
@@ -337,7 +448,7 @@ def run(ctx):
             plan.append((n, h, pairs, rt, rt_hash, (ch, ups, cached)))
         impl_pre = [log.render(p[1]) for p in plan]
         legacy = legacy_states(ctx, rng, real)
-        la_nodes = lookalike_pairs(ctx, real)
+        la_nodes = lookalike_pairs(ctx, real) + container_pairs(ctx, real)
     out = ctx.model("C18", reqs + [r for r, _, _ in legacy])
 
     old_tree = 0
@@ -429,6 +540,54 @@ def lookalike_pairs(ctx, real):
     return nodes
 
 
+def container_shapes(a, b):
+    """the same two lazy expressions in different containers / nestings"""
+    return [("list", ("cont", "list", (a, b))), ("tuple", ("cont", "tuple", (a, b))), ("namedtuple", ("cont", "namedtuple", (a, b))),
+            ("nested-list", ("cont", "list", (("cont", "list", (a, b)),))), ("list-of-tuple", ("cont", "list", (("cont", "tuple", (a, b)),))),
+            ("mixed-nesting", ("cont", "list", (a, ("cont", "list", (b,))))), ("dict", ("cont", "dict", (("k0", a), ("k1", b)))),
+            ("tuple-of-lists", ("cont", "tuple", (("cont", "list", (a,)), ("cont", "list", (b,)))))]
+
+
+def container_pairs(ctx, real):
+    """every ordered pair of containers of the same lazy expressions, as positional and keyword argument of every expression kind:
+    a different container type / nesting is a different argument, hence a different call => different hash."""
+    a = ("task", "g", (("lit", 1),), (), (), (), None)
+    b = ("value", 2)
+    hosts = [
+        ("task", lambda c: ("task", "f", (c,), (), (), (), None)), ("task-keyword", lambda c: ("task", "f", (), (("xs", c),), (), (), None)),
+        ("sched", lambda c: ("sched", "redun.seq", (c,), (), (), (), None)), ("sched-keyword", lambda c: ("sched", "redun.seq", (), (("xs", c),), (), (), None)),
+        ("simple", lambda c: ("simple", "getitem", (c, ("lit", 3)), ())), ("simple-keyword", lambda c: ("simple", "call", (), (("xs", c),))),
+    ]
+    nodes = []
+    shapes = container_shapes(a, b)
+    for hname, host in hosts:
+        for sa, ca in shapes:
+            na = host(ca)
+            nodes.append(na)
+            for sb, cb in shapes:
+                if sa == sb:
+                    continue
+                nb = host(cb)
+                ea, eb = real.build(na), real.build(nb)
+                ha = ea.get_hash()
+                hb = eb.get_hash()
+                ctx.case(key=("container", hname, sa, sb), part="container-pairs", host=hname, containers="%s vs %s" % (sa, sb))
+                if ha == hb:
+                    ctx.violation("C18-same-hash-different-call-argument-container-type-" + hname,
+                                  "two %s expressions whose argument holds the same lazy expressions in a %s and in a %s have the same hash"
+                                  % (hname, sa, sb),
+                                  case={"a": safe_repr(ea), "b": safe_repr(eb), "node_a": na, "node_b": nb, "container_a": sa, "container_b": sb},
+                                  expected="different hashes", actual="equal")
+    return nodes
+
+
+def safe_repr(e):
+    try:
+        return repr(e)
+    except Exception:       # noqa: BLE001  (SimpleExpression('call', ...) reprs assume a fixed argument shape)
+        return object.__repr__(e)
+
+
 def worker():
     """fresh process: read a JSON list of nodes, build and hash them in that order, print the hashes"""
     import json
@@ -452,15 +611,24 @@ def fresh_processes(ctx, nodes):
             seen.add(ident(n))
             uniq.append(n)
     real = Real(HashLog())
-    here = [real.build(n).get_hash() for n in uniq]
+    # build from a JSON copy, exactly as the workers do: pickle memoizes by object identity, so a container whose items share
+    # a string object pickles differently from one with equal but distinct strings (that is C16's subject, not C18's)
+    here = [real.build(_tuplify(json.loads(json.dumps(n)))).get_hash() for n in uniq]
     code = "import sys; sys.path[:0] = [%r, %r]; from props.C18 import worker; worker()" % (os.path.join(VERIF, "harness"), REPO)
     runs = {"this-process": here}
-    for order in ("forward", "reverse"):
+    procs = {}
+    for order in ("forward", "reverse"):        # two fresh interpreters, started together
         seq = uniq if order == "forward" else uniq[::-1]
-        r = subprocess.run([sys.executable, "-c", code], input=json.dumps(seq), capture_output=True, text=True, timeout=300)
-        if r.returncode != 0:
-            raise RuntimeError("C18 worker failed: " + r.stderr[-800:])
-        hs = json.loads(r.stdout.strip().split("\n")[-1])
+        procs[order] = subprocess.Popen([sys.executable, "-c", code], stdin=subprocess.PIPE, stdout=subprocess.PIPE,
+                                        stderr=subprocess.PIPE, text=True)
+        procs[order].stdin.write(json.dumps(seq))
+        procs[order].stdin.close()
+    for order, pr in procs.items():
+        out = pr.stdout.read()
+        err = pr.stderr.read()
+        if pr.wait(timeout=300) != 0:
+            raise RuntimeError("C18 worker failed: " + err[-800:])
+        hs = json.loads(out.strip().split("\n")[-1])
         runs["fresh-" + order] = hs if order == "forward" else hs[::-1]
     ctx.case(key=("fresh-processes", len(uniq)), part="fresh-processes", expressions=len(uniq))
     for name, hs in runs.items():
@@ -526,6 +694,33 @@ def merged_under_one_parent(ctx):
                           case={"scenario": what, "a": repr(va), "b": repr(vb),
                                 "program": "[a op b, b op a, pair(a, b), pair(b, a), pair(a, a, k=b), pair(a, a, k=a)] with a=ident(%r), b=ident(%r)" % (va, vb)},
                           expected=repr(expect), actual=repr(got), kind="input")
+
+    # the same lazy expressions passed in a list, a tuple, a namedtuple, nested, as dict values: different arguments
+    @task(name="c18_show", namespace="verif_c18", version="1")
+    def c18_show(xs=None, k=None):
+        x = xs if xs is not None else k
+        return "%s:%r" % (type(x).__name__, x)
+
+    @task(name="c18_containers", namespace="verif_c18", version="1")
+    def c18_containers():
+        a, b = c18_ident(1), c18_ident(2)
+        return [c18_show([a, b]), c18_show((a, b)), c18_show(NT2(a, b)), c18_show([[a, b]]), c18_show([a, [b]]),
+                c18_show({"p": a, "q": b}), c18_show(k=[a, b]), c18_show(k=(a, b))]
+
+    expect = ["list:[1, 2]", "tuple:(1, 2)", "NT2:NT2(p=1, q=2)", "list:[[1, 2]]", "list:[1, [2]]", "dict:{'p': 1, 'q': 2}",
+              "list:[1, 2]", "tuple:(1, 2)"]
+    try:
+        got = Scheduler().run(c18_containers())
+    except Exception as e:      # noqa: BLE001
+        got = "!" + type(e).__name__
+    ctx.case(key=("one-parent", "containers"), part="merged-under-one-parent", scenario="containers")
+    if got != expect:
+        ctx.violation("C18-same-hash-different-call-merged-containers",
+                      "calls whose argument holds the same lazy expressions in different containers, evaluated under one parent job, "
+                      "were merged: the result differs from plain Python evaluation",
+                      case={"scenario": "containers", "program": "[show([a, b]), show((a, b)), show(NT2(a, b)), show([[a, b]]), show([a, [b]]), "
+                            "show({'p': a, 'q': b}), show(k=[a, b]), show(k=(a, b))] with a=ident(1), b=ident(2)"},
+                      expected=repr(expect), actual=repr(got), kind="input")
 
 
 def legacy_states(ctx, rng, real):
